@@ -19,6 +19,7 @@ package server
 // tree under test.
 
 import (
+	"bytes"
 	"context"
 	"encoding/hex"
 	"fmt"
@@ -126,6 +127,20 @@ type c10World struct {
 	orphan *hotstuff.Block         // never delivered: unknown to the replica under test
 	qcOrph hotstuff.QuorumCert     // valid signatures over the orphan
 	tcs    map[hotstuff.View]hotstuff.TimeoutCert
+	aggs   map[string]hotstuff.AggregateQC // genuine aggregate QCs, built once
+}
+
+// genuine aggregate QC of view v whose timeouts (replicas 1, 3, 4) all report qcs[i]
+func (w *c10World) genAgg(v hotstuff.View, i int) hotstuff.AggregateQC {
+	k := fmt.Sprintf("%d/%d", v, i)
+	if a, ok := w.aggs[k]; ok {
+		return a
+	}
+	if w.aggs == nil {
+		w.aggs = map[string]hotstuff.AggregateQC{}
+	}
+	w.aggs[k] = w.aggQC(v, w.qcs[i])
+	return w.aggs[k]
 }
 
 func c10Key(t *testing.T, scheme string) hotstuff.PrivateKey {
@@ -259,10 +274,26 @@ func (w *c10World) aggQC(v hotstuff.View, qc hotstuff.QuorumCert) hotstuff.Aggre
 type c10Opt struct {
 	cache, agg, kauri bool
 	mid               bool
+	// aggSt (fast-hotstuff only): the replica has just accepted a genuine aggregate QC for view 1
+	//   1: all timeouts reported the genesis QC (high QC without signature): view 2, lastVoted 0
+	//   2: after voting for b1, all timeouts reported qc1 (signed high QC): view 2, highQC qc1, lastVoted 1
+	aggSt int
 }
 
 func (o c10Opt) String() string {
-	return fmt.Sprintf("cache=%v agg=%v kauri=%v mid=%v", o.cache, o.agg, o.kauri, o.mid)
+	return fmt.Sprintf("cache=%v agg=%v kauri=%v mid=%v aggSt=%d", o.cache, o.agg, o.kauri, o.mid, o.aggSt)
+}
+
+func (o c10Opt) state() string {
+	switch {
+	case o.aggSt == 1:
+		return "after a genuine aggregate QC over the genesis QC"
+	case o.aggSt == 2:
+		return "after b1 and a genuine aggregate QC over qc1"
+	case o.mid:
+		return "mid-run"
+	}
+	return "fresh"
 }
 
 type c10Replica struct {
@@ -412,7 +443,27 @@ func c10NewReplica(t *testing.T, w *c10World, opt c10Opt) *c10Replica {
 	if opt.mid {
 		r.midRun(t)
 	}
+	if opt.aggSt > 0 {
+		r.aggRun(t)
+	}
 	return r
+}
+
+// aggRun: view 1 times out and the replica receives the genuine aggregate QC (see c10Opt.aggSt).
+func (r *c10Replica) aggRun(t *testing.T) {
+	w := r.w
+	hq := 0
+	if r.opt.aggSt == 2 {
+		hq = 1
+		r.impl.Propose(c10Ctx(int(c10Ldr)), hotstuffpb.ProposalToProto(hotstuff.ProposeMsg{ID: c10Ldr, Block: w.blocks[1]}))
+		r.drain()
+	}
+	r.impl.NewView(c10Ctx(3), hotstuffpb.SyncInfoToProto(hotstuff.NewSyncInfoWith(w.genAgg(1, hq))))
+	r.drain()
+	p := r.proj()
+	if p.View != 2 || p.LastVoted != uint64(hq) || p.HighQCView != uint64(hq) {
+		t.Fatalf("aggregate-QC script %d did not reach the intended state: %+v", r.opt.aggSt, p)
+	}
 }
 
 func (r *c10Replica) drain() {
@@ -724,7 +775,7 @@ func (r *c10Replica) cfgTerm(g string) string {
 // termOf computes, before delivery, the model's view of the message: the wmsg term, the env term and
 // whether nothing in it verifies.
 func (r *c10Replica) termOf(m *c10Msg, pb proto.Message) (msg, env string, bad, unvalidated bool) {
-	ev := [6]bool{}
+	ev := [8]bool{} // view_ok, vote_rule, qc_match, hq_signed, sig_same, leader_ok, vote_reach, contrib_reach
 	switch m.kind {
 	case c10Propose:
 		p := pb.(*hotstuffpb.Proposal)
@@ -750,12 +801,21 @@ func (r *c10Replica) termOf(m *c10Msg, pb proto.Message) (msg, env string, bad, 
 				ev[0] = lastVoted < bv && bv <= r.states.View()
 				ev[1] = c10Try(func() bool { return r.rules.VoteRule(bv, pm) })
 				if pm.AggregateQC != nil {
-					ev[2] = c10Try(func() bool {
+					// the high QC the (uncached) authority extracts from the aggregate QC, compared with the
+					// block QC field by field (QuorumCert.Equals itself is code under test)
+					c10Try(func() bool {
 						hq, err := r.oauth.VerifyAggregateQC(*pm.AggregateQC)
-						return err == nil && pm.Block.QuorumCert().Equals(hq)
+						if err != nil {
+							return false
+						}
+						bq := pm.Block.QuorumCert()
+						ev[2] = bq.View() == hq.View() && bq.BlockHash() == hq.BlockHash()
+						ev[3] = hq.Signature() != nil
+						ev[4] = bq.Signature() != nil && hq.Signature() != nil && bytes.Equal(bq.Signature().ToBytes(), hq.Signature().ToBytes())
+						return true
 					})
 				}
-				ev[3] = id == c10Ldr
+				ev[5] = id == c10Ldr
 				return true
 			})
 		}
@@ -768,7 +828,7 @@ func (r *c10Replica) termOf(m *c10Msg, pb proto.Message) (msg, env string, bad, 
 		s, sb := r.sigTerm(v.GetSig(), r.verifyAgainst(r.blockBytes(h)))
 		// with the Kauri tree there is no voting machine: VoteMsg events have no handler
 		if b, ok := r.bc.LocalGet(h); ok && !r.opt.kauri {
-			ev[4] = b.View() > r.states.HighQC().View()
+			ev[6] = b.View() > r.states.HighQC().View()
 		}
 		msg, bad = fmt.Sprintf("(MVote (VO %s))", s), sb
 	case c10NewView:
@@ -821,21 +881,21 @@ func (r *c10Replica) termOf(m *c10Msg, pb proto.Message) (msg, env string, bad, 
 		var bb []byte
 		if r.kauri != nil && kv == hotstuff.View(k.GetView()) {
 			bb = r.blockBytes(kh)
-			ev[5] = bb != nil
+			ev[7] = bb != nil
 		}
 		s, sb := r.sigTerm(k.GetSignature(), r.verifyAgainst(bb))
 		msg, bad = fmt.Sprintf("(MContribution (KC %s))", s), sb
 	}
-	env = fmt.Sprintf("(EV %s %s %s %s %s %s)", c10B(ev[0]), c10B(ev[1]), c10B(ev[2]), c10B(ev[3]), c10B(ev[4]), c10B(ev[5]))
+	env = fmt.Sprintf("(EV %s %s %s %s %s %s %s %s)", c10B(ev[0]), c10B(ev[1]), c10B(ev[2]), c10B(ev[3]), c10B(ev[4]), c10B(ev[5]), c10B(ev[6]), c10B(ev[7]))
 	return
 }
 
 // ---------------------------------------------------------------- guard probing
 
-type c10Guards struct{ srvBlock, block, pcert, tc, aggAny, aggSync, cache, bitfield bool }
+type c10Guards struct{ srvBlock, block, pcert, tc, aggAny, aggSync, cache, bitfield, equals bool }
 
 func (g c10Guards) term() string {
-	return fmt.Sprintf("(G %s %s %s %s %s %s %s %s)", c10B(g.srvBlock), c10B(g.block), c10B(g.pcert), c10B(g.tc), c10B(g.aggAny), c10B(g.aggSync), c10B(g.cache), c10B(g.bitfield))
+	return fmt.Sprintf("(G %s %s %s %s %s %s %s %s %s)", c10B(g.srvBlock), c10B(g.block), c10B(g.pcert), c10B(g.tc), c10B(g.aggAny), c10B(g.aggSync), c10B(g.cache), c10B(g.bitfield), c10B(g.equals))
 }
 
 func c10Returns(f func()) (ok bool) {
@@ -848,7 +908,7 @@ func c10Returns(f func()) (ok bool) {
 	return true
 }
 
-// c10Probe finds out which of the eight guards the tree under test has, with one minimal wire
+// c10Probe finds out which of the nine guards the tree under test has, with one minimal wire
 // message each, delivered through the service handlers (so it does not matter where on the path a
 // guard sits); BlockFromProto is an exported function and is probed directly.
 func c10Probe(t *testing.T, w, wbls *c10World) c10Guards {
@@ -876,6 +936,14 @@ func c10Probe(t *testing.T, w, wbls *c10World) c10Guards {
 	v1 := hotstuff.View(1)
 	g.bitfield = survivesIn(wbls, c10Opt{}, &c10Msg{kind: c10Timeout, ctxID: 0,
 		pb: &hotstuffpb.TimeoutMsg{View: 1, ViewSig: hotstuffpb.QuorumSignatureToProto(wbls.sign(4, v1.ToBytes()))}})
+	// QuorumCert.Equals is an exported method: one certificate with, one without a signature
+	g.equals = c10Returns(func() {
+		signed := hotstuff.NewQuorumCert(w.sign(3, []byte("x")), 0, gh)
+		_ = w.qcs[0].Equals(signed)
+	}) && c10Returns(func() {
+		signed := hotstuff.NewQuorumCert(w.sign(3, []byte("x")), 0, gh)
+		_ = signed.Equals(w.qcs[0])
+	})
 	return g
 }
 
@@ -959,7 +1027,7 @@ func (x *c10Run) deliverOn(r *c10Replica, m *c10Msg, pb proto.Message, wire []by
 		kind = "NewView-releasing-parked-Propose"
 	}
 	meta := map[string]any{"handler": kind, "scheme": w.scheme, "cache": opt.cache, "aggregate_qc": opt.agg, "kauri": opt.kauri,
-		"state": map[bool]string{false: "fresh", true: "mid-run"}[opt.mid], "ctx_id": m.ctxID, "label": m.label,
+		"state": opt.state(), "ctx_id": m.ctxID, "label": m.label,
 		"message": c10Short(fmt.Sprint(pb), 600), "wire_hex": c10Short(hex.EncodeToString(wire), 1200), "observed": obs, "nothing_verifies": bad}
 	if seq != "" {
 		meta["sequence"] = seq
@@ -1199,6 +1267,9 @@ func (x *c10Run) aggVariants(w *c10World, cur hotstuff.View, core bool) []c10Agg
 // ---------------------------------------------------------------- enumerators per handler
 
 func (x *c10Run) curView(opt c10Opt) hotstuff.View {
+	if opt.aggSt > 0 {
+		return 2
+	}
 	if !opt.mid {
 		return 1
 	}
@@ -1517,9 +1588,22 @@ func (x *c10Run) honest(w *c10World, opt c10Opt) []*c10Msg {
 		}
 	}
 	nb := hotstuff.NewBlock(parent.Hash(), next, c10Batch(60), cur+1, c10Ldr)
+	var agg hotstuff.AggregateQC
+	if opt.aggSt > 0 {
+		// the leader of view 2 proposes on top of the high QC of the aggregate QC of view 1;
+		// new-view and timeout messages carry the genuine aggregate QC of the current view
+		next, parent = w.qcs[opt.aggSt-1], w.blocks[opt.aggSt-1]
+		nb = hotstuff.NewBlock(parent.Hash(), next, c10Batch(61), cur, c10Ldr)
+		agg = w.genAgg(cur, opt.aggSt-1)
+	} else {
+		agg = w.aggQC(cur, next)
+	}
 	prop := hotstuff.ProposeMsg{ID: c10Ldr, Block: nb}
-	agg := w.aggQC(cur, next)
 	propAgg := hotstuff.ProposeMsg{ID: c10Ldr, Block: nb, AggregateQC: &agg}
+	if opt.aggSt > 0 {
+		a1 := w.genAgg(1, opt.aggSt-1)
+		propAgg.AggregateQC = &a1
+	}
 	si := hotstuff.NewSyncInfoWith(next)
 	si.SetTC(w.tcs[cur])
 	siAgg := hotstuff.NewSyncInfoWith(w.tcs[cur])
@@ -1678,6 +1762,164 @@ func (x *c10Run) parkedProposals(w *c10World, opts []c10Opt) {
 	}
 }
 
+// ---------------------------------------------------------------- genuine aggregate QCs (fast-hotstuff)
+
+// genuineAgg: messages built around a GENUINE, verifying aggregate QC (real keys, real timeouts), so that
+// the paths behind a successful VerifyAggregateQC are reached: VerifyAnyQC compares the block QC with the
+// aggregate's high QC (QuorumCert.Equals) in all four combinations of nil / present signatures, then
+// verifies the block QC; Voter.Verify, voting and committing follow.  On top of the valid messages every
+// part is in turn removed, emptied or replaced.
+func (x *c10Run) genuineAgg(w *c10World) {
+	accepted := 0
+	n := 0
+	for _, st := range []int{1, 2} {
+		for _, cache := range []bool{false, true} {
+			opt := c10Opt{cache: cache, agg: true, aggSt: st}
+			hqc, hblk := w.qcs[st-1], w.blocks[st-1]
+			hh := hblk.Hash()
+			agg1 := hotstuffpb.AggregateQCToProto(w.genAgg(1, st-1)) // what the leader of view 2 holds
+			agg2 := hotstuffpb.AggregateQCToProto(w.genAgg(2, st-1)) // view 2 timed out as well
+			hv := uint64(hqc.View())
+			// block QCs that agree with the high QC in view and hash
+			qcs := []c10QCV{{"high-qc-itself", hotstuffpb.QuorumCertToProto(hqc)}}
+			for _, sv := range x.sigVariants(w, hblk.ToBytes(), w.blocks[3].ToBytes(), false) {
+				if sv.name == "valid-quorum" && st == 2 {
+					continue // identical to the high QC
+				}
+				qcs = append(qcs, c10QCV{"same view+hash sig=" + sv.name, &hotstuffpb.QuorumCert{Sig: sv.sig, View: hv, Hash: hh[:]}})
+			}
+			if st == 2 {
+				other := hotstuffpb.QuorumSignatureToProto(w.combine(hblk.ToBytes(), 1, 2, 3))
+				qcs = append(qcs, c10QCV{"same view+hash sig=valid-other-signers", &hotstuffpb.QuorumCert{Sig: other, View: hv, Hash: hh[:]}})
+			}
+			// ... and block QCs that do not
+			oh := w.orphan.Hash()
+			hsig := hotstuffpb.QuorumSignatureToProto(hqc.Signature())
+			if hqc.Signature() == nil {
+				hsig = nil
+			}
+			qcs = append(qcs,
+				c10QCV{"absent", nil}, c10QCV{"empty", &hotstuffpb.QuorumCert{}},
+				c10QCV{"high-qc view+1", &hotstuffpb.QuorumCert{Sig: hsig, View: hv + 1, Hash: hh[:]}},
+				c10QCV{"high-qc other hash", &hotstuffpb.QuorumCert{Sig: hsig, View: hv, Hash: oh[:]}},
+				c10QCV{"high-qc short hash", &hotstuffpb.QuorumCert{Sig: hsig, View: hv, Hash: hh[:31]}},
+			)
+			// aggregate QCs: the genuine one and the genuine one with one part changed
+			mut := func(name string, f func(a *hotstuffpb.AggQC)) c10AggV {
+				a := proto.Clone(agg1).(*hotstuffpb.AggQC)
+				f(a)
+				return c10AggV{name, a}
+			}
+			aggs := []c10AggV{{"genuine", agg1},
+				mut("genuine sig-absent", func(a *hotstuffpb.AggQC) { a.Sig = nil }),
+				mut("genuine sig-unset", func(a *hotstuffpb.AggQC) { a.Sig = &hotstuffpb.QuorumSignature{} }),
+				mut("genuine sig-garbage", func(a *hotstuffpb.AggQC) { a.Sig = x.sigVariants(w, []byte("m"), []byte("o"), true)[3].sig }),
+				mut("genuine no-qcs", func(a *hotstuffpb.AggQC) { a.QCs = nil }),
+				mut("genuine one-qc-emptied", func(a *hotstuffpb.AggQC) { a.QCs[3] = &hotstuffpb.QuorumCert{} }),
+				mut("genuine one-qc-sig-dropped", func(a *hotstuffpb.AggQC) {
+					q := proto.Clone(a.QCs[3]).(*hotstuffpb.QuorumCert)
+					q.Sig = nil
+					a.QCs[3] = q
+				}),
+				mut("genuine one-qc-removed", func(a *hotstuffpb.AggQC) { delete(a.QCs, 4) }),
+				mut("genuine extra-qc", func(a *hotstuffpb.AggQC) { a.QCs[2] = &hotstuffpb.QuorumCert{View: 9, Hash: oh[:]} }),
+				mut("genuine view+1", func(a *hotstuffpb.AggQC) { a.View++ }),
+				mut("genuine view=0", func(a *hotstuffpb.AggQC) { a.View = 0 }),
+				{"genuine of view 2", agg2},
+				{"absent", nil}, {"empty", &hotstuffpb.AggQC{}},
+			}
+			block := func(q *hotstuffpb.QuorumCert) *hotstuffpb.Block {
+				return &hotstuffpb.Block{Parent: hh[:], QC: q, View: 2, Proposer: uint32(c10Ldr), Commands: c10Batch(80 + n),
+					Timestamp: timestamppb.New(time.Unix(1700000100, int64(n)))}
+			}
+			send := func(m *c10Msg, must bool) {
+				n++
+				if !must && !x.take(w, n, 3) {
+					return
+				}
+				pb, wire, ok := c10RoundTrip(m.kind, m.pb, nil)
+				if !ok {
+					return
+				}
+				r := x.replica(w, opt)
+				o := x.deliverOn(r, m, pb, wire, "")
+				if m.kind == c10Propose && o.after.LastVoted > o.before.LastVoted {
+					accepted++
+				}
+				x.v.Count("stream:genuine-aggqc")
+			}
+			// proposals: every block QC with the genuine aggregate QC, the valid block QC with every aggregate QC
+			for _, q := range qcs {
+				nilish := strings.Contains(q.name, "absent") || strings.Contains(q.name, "unset") || q.name == "high-qc-itself" ||
+					strings.Contains(q.name, "valid-single") || strings.Contains(q.name, "garbage")
+				send(&c10Msg{kind: c10Propose, pb: &hotstuffpb.Proposal{Block: block(q.qc), AggQC: agg1}, ctxID: 1,
+					label: "proposal with a genuine aggregate QC, block qc=" + q.name}, nilish)
+			}
+			for _, a := range aggs[1:] {
+				send(&c10Msg{kind: c10Propose, pb: &hotstuffpb.Proposal{Block: block(qcs[0].qc), AggQC: a.agg}, ctxID: 1,
+					label: "proposal with the high QC as block QC, agg=" + a.name}, strings.Contains(a.name, "absent"))
+				send(&c10Msg{kind: c10Propose, pb: &hotstuffpb.Proposal{Block: block(qcs[1].qc), AggQC: a.agg}, ctxID: 1,
+					label: "proposal block qc=" + qcs[1].name + ", agg=" + a.name}, false)
+			}
+			// the otherwise valid proposal with one block field changed at a time
+			for _, bm := range []struct {
+				name string
+				f    func(b *hotstuffpb.Block)
+				ctx  int
+			}{
+				{"commands absent", func(b *hotstuffpb.Block) { b.Commands = nil }, 1},
+				{"timestamp absent", func(b *hotstuffpb.Block) { b.Timestamp = nil }, 1},
+				{"commands+timestamp absent", func(b *hotstuffpb.Block) { b.Commands, b.Timestamp = nil, nil }, 1},
+				{"parent absent", func(b *hotstuffpb.Block) { b.Parent = nil }, 1},
+				{"parent unknown", func(b *hotstuffpb.Block) { b.Parent = oh[:] }, 1},
+				{"view 0", func(b *hotstuffpb.Block) { b.View = 0 }, 1},
+				{"view 1", func(b *hotstuffpb.Block) { b.View = 1 }, 1},
+				{"view 3 (parked)", func(b *hotstuffpb.Block) { b.View = 3 }, 1},
+				{"view 40", func(b *hotstuffpb.Block) { b.View = 40 }, 1},
+				{"from a replica that is not the leader", func(b *hotstuffpb.Block) {}, 3},
+				{"peer id missing", func(b *hotstuffpb.Block) {}, -1},
+				{"empty command", func(b *hotstuffpb.Block) { b.Commands = &clientpb.Batch{Commands: []*clientpb.Command{{}}} }, 1},
+			} {
+				for _, q := range qcs[:3] {
+					b := block(q.qc)
+					bm.f(b)
+					send(&c10Msg{kind: c10Propose, pb: &hotstuffpb.Proposal{Block: b, AggQC: agg1}, ctxID: bm.ctx,
+						label: "proposal with a genuine aggregate QC, block qc=" + q.name + ", " + bm.name}, false)
+				}
+			}
+			// new-view and timeout messages: the genuine aggregate QC of the current view with sync-info QCs that
+			// agree with its high QC in view and hash (nil / present signature), and TCs with and without signature
+			tcs := []c10TCV{{"absent", nil}, {"valid", hotstuffpb.TimeoutCertToProto(w.tcs[2])}, {"sig-absent", &hotstuffpb.TimeoutCert{View: 2}},
+				{"sig-unset", &hotstuffpb.TimeoutCert{View: 2, Sig: &hotstuffpb.QuorumSignature{}}}}
+			for qi, q := range qcs {
+				for ti, tc := range tcs {
+					if qi > 4 && ti > 1 {
+						continue
+					}
+					for ai, a := range []c10AggV{{"genuine of view 2", agg2}, {"genuine of view 1", agg1}, aggs[1], aggs[6]} {
+						if ai > 0 && (qi > 2 || ti > 0) {
+							continue
+						}
+						si := &hotstuffpb.SyncInfo{QC: q.qc, TC: tc.tc, AggQC: a.agg}
+						send(&c10Msg{kind: c10NewView, pb: si, ctxID: 3,
+							label: "new-view qc=" + q.name + " tc=" + tc.name + " agg=" + a.name}, qi < 3 && ti != 1 && ai == 0)
+						// a timeout of replica 4 for view 2 with its genuine view and message signatures
+						dm := hotstuffpb.TimeoutMsgFromProto(&hotstuffpb.TimeoutMsg{View: 2, SyncInfo: si})
+						dm.ID = 4
+						tm := &hotstuffpb.TimeoutMsg{View: 2, SyncInfo: si,
+							ViewSig: hotstuffpb.QuorumSignatureToProto(w.sign(4, hotstuff.View(2).ToBytes())),
+							MsgSig:  hotstuffpb.QuorumSignatureToProto(w.sign(4, dm.ToBytes()))}
+						send(&c10Msg{kind: c10Timeout, pb: tm, ctxID: 4,
+							label: "timeout (genuine signatures) qc=" + q.name + " tc=" + tc.name + " agg=" + a.name}, qi < 3 && ti != 1 && ai == 0)
+					}
+				}
+			}
+		}
+	}
+	x.v.CountN("stream:genuine-aggqc:proposals-voted-for", accepted)
+	x.v.Note(fmt.Sprintf("%s: genuine aggregate-QC stream: %d proposals were accepted and voted for", w.scheme, accepted))
+}
+
 // ---------------------------------------------------------------- test entry
 
 func TestVerifC10(t *testing.T) {
@@ -1717,10 +1959,14 @@ func TestVerifC10(t *testing.T) {
 		if s == crypto.NameBLS12 {
 			nr, ns = v.Pick(150, 3000), v.Pick(20, 300)
 		}
-		x.randomStream(w, opts, nr)
-		x.sequences(w, opts, ns)
+		x.genuineAgg(w)
+		// the random streams also start from the states behind a genuine aggregate QC
+		optsR := append(append([]c10Opt{}, opts...), c10Opt{agg: true, aggSt: 1}, c10Opt{agg: true, aggSt: 2},
+			c10Opt{cache: true, agg: true, aggSt: 1}, c10Opt{cache: true, agg: true, aggSt: 2})
+		x.randomStream(w, optsR, nr)
+		x.sequences(w, optsR, ns)
 		x.parkedProposals(w, opts)
 	}
 	v.Note(fmt.Sprintf("cases=%d panics=%d changed=%d in %.1fs", x.nCases, x.nPanic, x.nChanged, time.Since(t0).Seconds()))
-	v.Close("one case = one wire message delivered to a hand-wired replica (3 schemes x cache x {simple, aggregate, kauri} x {fresh, mid-run}) followed by draining the event loop; non-trivial = the message carries at least one present optional part or a signature that verifies")
+	v.Close("one case = one wire message delivered to a hand-wired replica (3 schemes x cache x {simple, aggregate, kauri} x {fresh, mid-run, behind a genuine aggregate QC}) followed by draining the event loop; non-trivial = the message carries at least one present optional part or a signature that verifies")
 }
